@@ -7,7 +7,9 @@ use crate::delta::parser::parse_node;
 use std::mem::MaybeUninit;
 
 pub const MAX_SOURCE_LEN: usize = 1 << 31;
-const MAX_NUM_TOKENS: usize = 1 << 24;
+// The parser needs up to 4 nodes per token (plus a few nodes of context),
+// and parse nodes are addressed with 24 bits.
+const MAX_NUM_TOKENS: usize = (1 << 22) - 2;
 const MAX_NUM_PAYLOADS: usize = 1 << 24;
 const MAX_NUM_LEXING_ERRORS: usize = 100;
 
